@@ -84,6 +84,7 @@ def call_fn_value(ex, st, f, argvals):
 
 
 _DELEG = {}
+_DELEG_MAP = {}      # adt path -> capture-free closure applied to every item (`self.f.next().map(closure)`)
 
 
 def delegating_field(ex, adt_path):
@@ -98,17 +99,34 @@ def delegating_field(ex, adt_path):
     if len(cands) == 1:
         try:
             ps = [p for p in Symex(ex.facts, inline_crates=()).run(cands[0]) if p.kind == "ret"]
+            adt = ex.facts.adts.get(adt_path)
+            names = [f["name"] for f in adt["variants"][0]["fields"]] if adt else []
             if len(ps) == 1 and not ps[0].pc:
                 m = re.match(r"^next\(a1\.(\w+)\)$", bare(ps[0].ret))
-                if m:
-                    adt = ex.facts.adts.get(adt_path)
-                    names = [f["name"] for f in adt["variants"][0]["fields"]] if adt else []
-                    if m.group(1) in names:
+                if m and m.group(1) in names:
+                    res = names.index(m.group(1))
+            elif len(ps) == 2 and all(len(p.pc) == 1 for p in ps):
+                # `self.f.next().map(|x| E(x))`: None when the inner iterator is exhausted, Some(E(item)) otherwise
+                none = [p for p in ps if bare(p.ret) == "Option::None()" and p.pc[0][1] == 0]
+                some = [p for p in ps if p.ret[0] == "adt" and p.ret[2] == "Some" and p.pc[0][1] == 1]
+                if len(none) == 1 and len(some) == 1 and none[0].pc[0][0] == some[0].pc[0][0]:
+                    d = some[0].pc[0][0]
+                    m = re.match(r"^discr\(next\(a1\.(\w+)\)\)$", bare(d))
+                    if m and m.group(1) in names and d[0] == "discr":
                         res = names.index(m.group(1))
+                        _DELEG_MAP[adt_path] = (some[0].ret[3][0], ("field", ("as", d[1], "Some"), "0"))
         except Exception:
             res = None
     _DELEG[adt_path] = res
     return res
+
+
+def _subst(t, hole, val):
+    if t == hole:
+        return val
+    if isinstance(t, tuple):
+        return tuple(_subst(x, hole, val) for x in t)
+    return t
 
 
 def step(ex, st, T):
@@ -156,10 +174,16 @@ def step(ex, st, T):
         fi = delegating_field(ex, T[1])
         if fi is None:
             raise NotConcrete("iterator struct %s" % T[1])
+        mapper = _DELEG_MAP.get(T[1])
         for s2, it, inner2 in step(ex, st, T[3][fi]):
             fields = list(T[3])
             fields[fi] = inner2
-            yield s2, it, ("adt", T[1], T[2], tuple(fields))
+            T2 = ("adt", T[1], T[2], tuple(fields))
+            if it is None or mapper is None:
+                yield s2, it, T2
+            else:
+                expr, hole = mapper
+                yield s2, _subst(expr, hole, it), T2
         return
     if k != "call":
         raise NotConcrete("iterator value %s" % (k,))
